@@ -5,7 +5,8 @@ import AGV.Spec.Coerce
 import AGV.Model.Coerce
 
 /-!
-  Judge of property C06.  Case `(case STREAM TABLE DOC VARS)`, implementation line
+  Judge of property C06.  Case `(case STREAM TABLE DOC VARS)` (STREAM = static | dynamic |
+  static-fast | dynamic-fast: the schema and its validation mode), implementation line
   `(out STATUS (KEY OUTCOME)…)` — see harness/core/src/bin/c06.rs.
 
   The property is a predicate on the implementation's output (`sat`): when the specification's
@@ -109,9 +110,15 @@ open AGV.Model.Coerce in
     (a variable without runtime value is dropped), then the defaults of the missing ones; with
     `raw = true` (finding C06-dynamic-args-not-coerced) nothing is coerced and the resolver is
     always invoked; repaired = the specification -/
-def modelDynamic (rawMode : Bool) (D : Defects) (T : Table) (op : OpDef) (raw : List (String × GValue)) : Out :=
+def modelDynamic (fast : Bool) (rawMode : Bool) (D : Defects) (T : Table) (op : OpDef) (raw : List (String × GValue)) : Out :=
   let fs := rootFields op
   let valid :=
+    if fast then
+      -- `ValidationMode::Fast`: no rule looks at argument values (see `Model.Coerce.runFast`)
+      D.varValueNotCoerced ||
+        (varDefaultsValid D.nonObjectPassesInputObject T op.vars
+          && varValuesValid D.nonObjectPassesInputObject T op.vars raw)
+    else
     varDefaultsValid D.nonObjectPassesInputObject T op.vars
       && fs.all (fun f => match T.field? f.2.1 with
           | some sig => fieldValid D T raw sig f.2.2
@@ -179,7 +186,10 @@ def specString (spec : Option (List (String × Option (List (String × RV))))) :
 open AGV.Model.Coerce in
 def judge (known : List String) (case impl : String) : JudgeOut :=
   match Sexp.parse case, Sexp.parse impl with
-  | some (.list [.atom "case", .atom stream, t, d, v]), some implS =>
+  | some (.list [.atom "case", .atom stream0, t, d, v]), some implS =>
+    -- STREAM carries the validation mode: `static-fast` / `dynamic-fast` = ValidationMode::Fast
+    let fast := stream0.endsWith "-fast"
+    let stream := if stream0.startsWith "dynamic" then "dynamic" else "static"
     match table? t, Decode.doc? d, Decode.vars? v with
     | some T, some doc, some raw =>
       match doc.ops with
@@ -187,18 +197,20 @@ def judge (known : List String) (case impl : String) : JudgeOut :=
         let has := fun (id : String) => known.contains id
         let ids := ["C06-omitted-variable-skips-argument-default", "C06-null-becomes-singleton-list",
                     "C06-variable-values-not-coerced", "C06-literal-unchecked-beside-unsupplied-variable",
-                    "C06-non-object-passes-input-object-validation"]
+                    "C06-non-object-passes-input-object-validation",
+                    "C06-generated-parse-ignores-undeclared-keys"]
         let mk : Option String → Defects := fun off =>
           { omittedVarSkipsArgDefault := has ids[0]! && off ≠ some ids[0]!,
             nullToSingletonList := has ids[1]! && off ≠ some ids[1]!,
             varValueNotCoerced := has ids[2]! && off ≠ some ids[2]!,
             literalUncheckedBesideVar := has ids[3]! && off ≠ some ids[3]!,
-            nonObjectPassesInputObject := has ids[4]! && off ≠ some ids[4]! }
+            nonObjectPassesInputObject := has ids[4]! && off ≠ some ids[4]!,
+            undeclaredKeysIgnored := has ids[5]! && off ≠ some ids[5]! }
         let dynId := "C06-dynamic-args-not-coerced"
         let isDyn := stream = "dynamic"
         let model := fun (off : Option String) =>
-          if isDyn then outSexp (modelDynamic (has dynId && off ≠ some dynId) (mk off) T op raw)
-          else outSexp (run (mk off) T op raw)
+          if isDyn then outSexp (modelDynamic fast (has dynId && off ≠ some dynId) (mk off) T op raw)
+          else outSexp (runMode fast (mk off) T op raw)
         let spec := if isDyn then specDynamic T op raw else AGV.Spec.Coerce.request T op raw
         let modelK := model none
         let ok := sat spec implS
